@@ -144,11 +144,12 @@ func (vc *VC) tagOf(t types.Type) int { return vc.eng.tagOf(t) }
 // heap state
 
 type bstate struct {
-	alive string
-	heap  map[string]string
-	epoch int
-	alloc string
-	ghost map[string]TV
+	alive  string
+	heap   map[string]string
+	epoch  int
+	alloc  string
+	ghost  map[string]TV
+	leaked map[string]bool // refs of tracked locals whose address has escaped
 }
 
 func (s *bstate) clone() *bstate {
@@ -158,6 +159,12 @@ func (s *bstate) clone() *bstate {
 	}
 	for k, v := range s.ghost {
 		n.ghost[k] = v
+	}
+	if s.leaked != nil {
+		n.leaked = make(map[string]bool, len(s.leaked))
+		for k := range s.leaked {
+			n.leaked[k] = true
+		}
 	}
 	return n
 }
